@@ -517,6 +517,23 @@ class Interp:
             return NotImplemented
         if tname == 'std::hint::must_use' or tname == 'std::convert::identity':
             return args[0]
+        if tname == 'std::convert::Into::into' and len(args) == 1 and isinstance(deref_all(args[0]), Enum) and e is not None:
+            # `x.into()` with a generic source type: identity when source and target are the same type (std's blanket impl),
+            # otherwise the crate's own `From<Source> for Target`
+            v = deref_all(args[0])
+            target = strip_generics(e.get('ty', '') or '')
+            if target == v.adt:
+                return v
+            want = '<%s as std::convert::From>::from' % target
+            cands = []
+            for d, b in self.lib.bodies.items():
+                if strip_generics(d) == want and b.get('params'):
+                    p0 = b['params'][0]
+                    ty = strip_generics(p0.get('ty', '') if isinstance(p0, dict) else str(p0))
+                    if ty == v.adt:
+                        cands.append(d)
+            if len(cands) == 1:
+                return self.call_def(cands[0], [v], e)
         if tname in ('std::ops::Fn::call', 'std::ops::FnMut::call_mut', 'std::ops::FnOnce::call_once') and len(args) == 2:
             packed = deref_all(args[1])
             if isinstance(packed, Tup):
@@ -539,6 +556,10 @@ class Interp:
         r = self._cseq_call(tname, args, e)
         if r is not NotImplemented:
             return r
+        if tname in ('std::array::from_fn', 'core::array::from_fn') and len(args) == 1:
+            mlen = re.search(r';\s*(\d+)\]\s*$', (e or {}).get('ty', '') or '')
+            if mlen and int(mlen.group(1)) <= self.CSEQ_MAX:
+                return Tup([self.apply(args[0], [Num(i)], e) for i in range(int(mlen.group(1)))])
         if tname in ('std::array::<impl [T; N]>::map', 'core::array::<impl [T; N]>::map') and isinstance(deref_all(args[0]), Tup):
             return Tup([self.apply(args[1], [x], e) for x in deref_all(args[0]).items])
         if tname == 'std::ops::RangeInclusive::new' and len(args) == 2:
@@ -993,6 +1014,9 @@ class Interp:
                     continue
                 pl = self.eval_place(st['init'], fr)
                 if not self.match_pat(st['pat'], pl, fr):
+                    if st.get('has_else') and st.get('else') is not None:
+                        self.eval(st['else'], Frame(fr))          # diverges (return / break / panic)
+                        raise Unsupported("the else block of a let-else did not diverge", st['init'])
                     if st.get('has_else'):
                         raise Unsupported("let-else taken", st['init'])
                     raise Unsupported("irrefutable let pattern did not match %r" % (pl.get(),), st['init'])
